@@ -177,7 +177,7 @@ impl Check for C09 {
         // irrational-ish vertex spacing keeps dash boundaries off the vertices
         let g: Vec<(f32, f32)> = vec![(5.3, 6.1), (19.7, 5.2), (33.9, 7.4), (6.8, 19.9), (20.1, 21.3), (34.2, 18.6), (4.9, 33.8), (18.8, 34.6), (33.1, 32.7)];
         let arrs = arrays(q);
-        let offs: Vec<f32> = if q { vec![0.0, 4.5, -4.5, 10000.5] } else { vec![0.0, 1.0, 4.5, -1.0, -4.5, 10000.5, -10000.5] };
+        let offs: Vec<f32> = if q { vec![0.0, 4.5, -4.5, 10000.5, -123456792.0, 1e9] } else { vec![0.0, 1.0, 4.5, -1.0, -4.5, 10000.5, -10000.5, 123456792.0, -123456792.0, 1e9, -1e9] };
         // width 8: caps (4 px deep) hold pixels that are inside by more than the margin
         let styles: Vec<(f32, u8, u8)> = if q { vec![(2.0, 0, 1), (8.0, 1, 0), (8.0, 2, 2)] } else { vec![(2.0, 0, 1), (4.0, 1, 0), (8.0, 2, 2), (8.0, 1, 1), (6.0, 0, 0)] };
         run.bound("polylines", format!("open 2- and 3-vertex polylines, closed triangles (and quadrilaterals) over 9 points x {} dash arrays x {} offsets x {} styles", arrs.len(), offs.len(), styles.len()));
@@ -216,6 +216,36 @@ impl Check for C09 {
                 }
                 if run.expired() {
                     return;
+                }
+            }
+        });
+        // a long open subpath that reaches a gap, then a small closed subpath that fits inside the first dash
+        // (and the reverse order): per-subpath state must be restored at every MoveTo
+        let small: Vec<[(f32, f32); 3]> = vec![[(24.3, 22.1), (33.7, 23.4), (27.9, 31.2)], [(6.2, 24.8), (14.9, 26.1), (8.4, 33.9)]];
+        let long_arrays: Vec<Vec<f32>> = vec![vec![40.0, 3.0], vec![37.0, 2.0, 5.0, 2.0], vec![45.0], vec![36.0, 7.0, 2.0]];
+        run.bound("open-then-closed", format!("72 long open 2-segment polylines x {} small closed triangles x {} arrays x 3 offsets x 2 orders x 2 styles", small.len(), long_arrays.len()));
+        run.par(g.len() * g.len(), |s, l| {
+            let (a, b) = (g[s / g.len()], g[s % g.len()]);
+            if a == b {
+                return;
+            }
+            let c = g[(s * 5 + 3) % g.len()];
+            if c == a || c == b {
+                return;
+            }
+            for tri in &small {
+                for arr in &long_arrays {
+                    for off in [0.0f32, 3.5, -2.25] {
+                        for order in 0..2 {
+                            let open = vec![POp::M(a.0, a.1), POp::L(b.0, b.1), POp::L(c.0, c.1)];
+                            let closed = vec![POp::M(tri[0].0, tri[0].1), POp::L(tri[1].0, tri[1].1), POp::L(tri[2].0, tri[2].1), POp::Z];
+                            let ops = if order == 0 { [open, closed].concat() } else { [closed, open].concat() };
+                            for &(w, cap, join) in &[(2.0f32, 0u8, 1u8), (6.0, 1, 0)] {
+                                let st = StyleSpec { width: w, cap, join, miter: 4.0, dash: arr.clone(), offset: off };
+                                account(run, 500 + s, l, &PathSpec::new(ops.clone()), &st, false);
+                            }
+                        }
+                    }
                 }
             }
         });
